@@ -1,9 +1,251 @@
 import JominiModel.Driver.Util
+import JominiModel.Model.TextDe
+import JominiModel.Spec.TextDoc
+/-
+ops of property C02 (harness/src/props/c02.rs):
+  tde_tape   <enc> <ty> <tape>    …   (trailing replay / oracle arguments ignored)
+  tde_stream <enc> <ty> <rtokens> …
+-/
 namespace Jomini.Driver.C02
-open Jomini Jomini.Driver
+open Jomini Jomini.Driver Jomini.TextDe Jomini.TextDoc
 
-/-- ops of property C02 (none yet). -/
+def ascii (b : Bytes) : String := String.ofList (b.map (fun x => Char.ofNat x.toNat))
+def bytesOf (s : String) : Bytes := s.toUTF8.toList
+
+def opName : Op → String
+  | .eq => "eq" | .lt => "lt" | .le => "le" | .gt => "gt" | .ge => "ge" | .ne => "ne" | .exact => "exact" | .exst => "exists"
+
+def parseOp : String → Option Op
+  | "eq" => some .eq | "lt" => some .lt | "le" => some .le | "gt" => some .gt | "ge" => some .ge
+  | "ne" => some .ne | "exact" => some .exact | "exists" => some .exst | _ => none
+
+mutual
+def renderVal : Val → String
+  | .bool b => if b then "b1" else "b0"
+  | .int i => s!"i{i}"
+  | .uint n => s!"u{n}"
+  | .f64 b => s!"f{b}"
+  | .f32 b => s!"g{b}"
+  | .str s => "s" ++ toHex s
+  | .none => "none"
+  | .some v => "some(" ++ renderVal v ++ ")"
+  | .unit => "unit"
+  | .ign => "ign"
+  | .seq vs => "[" ++ ",".intercalate (renderList vs) ++ "]"
+  | .map kvs => "{" ++ ",".intercalate (renderKvs kvs) ++ "}"
+  | .st fs => "{" ++ ",".intercalate (renderFs fs) ++ "}"
+  | .prop o v => "prop(" ++ opName o ++ "," ++ renderVal v ++ ")"
+  | .en n => "en(" ++ toHex n ++ ")"
+def renderList : List Val → List String
+  | [] => []
+  | v :: vs => renderVal v :: renderList vs
+def renderKvs : List (Val × Val) → List String
+  | [] => []
+  | (k, v) :: r => (renderVal k ++ "=" ++ renderVal v) :: renderKvs r
+def renderFs : List (Bytes × Val) → List String
+  | [] => []
+  | (n, v) :: r => (ascii n ++ "=" ++ renderVal v) :: renderFs r
+end
+
+def renderR : R Val → String
+  | .ok v => renderVal v
+  | .error (.missing n) => "err:missing:" ++ ascii n
+  | .error (.duplicate n) => "err:duplicate:" ++ ascii n
+  | .error .type => "err:type"
+  | .error .other => "err:other"
+  | .error .panic => "panic"
+
+def isIdent (c : Char) : Bool := c.isAlphanum || c == '_'
+
+def stripPrefix (p : String) (cs : List Char) : Option (List Char) :=
+  if p.toList.isPrefixOf cs then some (cs.drop p.length) else none
+
+def leafKw : List (String × Ty) :=
+  [("bool", .bool), ("i64", .i64), ("u64", .u64), ("i32", .i32), ("u32", .u32), ("f64", .f64), ("f32", .f32),
+   ("str", .str), ("any", .any), ("ign", .ign)]
+
+def splitOnChar (c : Char) (cs : List Char) : List (List Char) :=
+  cs.foldr (fun x acc => if x == c then [] :: acc else match acc with | [] => [[x]] | h :: t => (x :: h) :: t) [[]]
+
+mutual
+/-- tyseed.rs `parse_ty_inner` -/
+def parseTy : Nat → List Char → Option (Ty × List Char)
+  | 0, _ => none
+  | f + 1, cs =>
+    match leafKw.findSome? (fun (kw, t) => (stripPrefix kw cs).bind (fun r =>
+        match r with
+        | c :: _ => if isIdent c || c == '(' then none else some (t, r)
+        | [] => some (t, r))) with
+    | some x => some x
+    | none =>
+      match stripPrefix "opt(" cs with
+      | some r => (parseTy f r).bind (fun (t, r) => (stripPrefix ")" r).map (fun r => (.opt t, r)))
+      | none =>
+      match stripPrefix "seq(" cs with
+      | some r => (parseTy f r).bind (fun (t, r) => (stripPrefix ")" r).map (fun r => (.seq t, r)))
+      | none =>
+      match stripPrefix "map(" cs with
+      | some r => (parseTy f r).bind (fun (t, r) => (stripPrefix ")" r).map (fun r => (.map t, r)))
+      | none =>
+      match stripPrefix "prop(" cs with
+      | some r => (parseTy f r).bind (fun (t, r) => (stripPrefix ")" r).map (fun r => (.prop t, r)))
+      | none =>
+      match stripPrefix "st(" cs with
+      | some r => (parseFields f r).map (fun (fs, r) => (.st fs, r))
+      | none =>
+      match stripPrefix "en(" cs with
+      | some r =>
+        let body := r.takeWhile (· != ')')
+        let rest := r.dropWhile (· != ')')
+        (match rest with
+         | _ :: rest' =>
+           some (.en ((splitOnChar ';' body).filter (fun v => !v.isEmpty) |>.map (fun v => bytesOf (String.ofList v))), rest')
+         | [] => none)
+      | none => none
+def parseFields : Nat → List Char → Option (List (Bytes × Ty) × List Char)
+  | 0, _ => none
+  | f + 1, cs =>
+    match cs with
+    | ')' :: r => some ([], r)
+    | _ =>
+      let name := cs.takeWhile (· != ':')
+      match cs.dropWhile (· != ':') with
+      | _ :: r =>
+        (parseTy f r).bind (fun (t, r) =>
+          let r := match r with | ';' :: r' => r' | _ => r
+          (parseFields f r).map (fun (fs, r) => ((bytesOf (String.ofList name), t) :: fs, r)))
+      | [] => none
+end
+
+def parseTyStr (s : String) : Option Ty :=
+  match parseTy (s.length + 2) s.toList with
+  | some (t, []) => some t
+  | _ => none
+
+def parseEnc : String → Option Enc
+  | "w1252" => some .w1252 | "utf8" => some .utf8 | _ => none
+
+def splitComma (s : String) : List String := if s == "-" then [] else s.splitOn ","
+
+def parseTTok (s : String) : Option TTok :=
+  let cs := s.toList
+  match cs with
+  | ['M'] => some .mixedC
+  | 'A' :: 'm' :: r => (String.ofList r).toNat?.map (fun n => .arr n true)
+  | 'A' :: r => (String.ofList r).toNat?.map (fun n => .arr n false)
+  | 'O' :: 'p' :: ':' :: r => (parseOp (String.ofList r)).map .op
+  | 'O' :: 'm' :: r => (String.ofList r).toNat?.map (fun n => .obj n true)
+  | 'O' :: r => (String.ofList r).toNat?.map (fun n => .obj n false)
+  | 'E' :: r => (String.ofList r).toNat?.map .end_
+  | 'U' :: ':' :: r => (parseHex (String.ofList r)).map .unq
+  | 'Q' :: ':' :: r => (parseHex (String.ofList r)).map .quo
+  | 'P' :: ':' :: r => (parseHex (String.ofList r)).map .param
+  | 'N' :: ':' :: r => (parseHex (String.ofList r)).map .undef
+  | 'H' :: ':' :: r => (parseHex (String.ofList r)).map .hdr
+  | _ => none
+
+def parseRTok (s : String) : Option RTok :=
+  match s with
+  | "Open" => some .open_
+  | "Close" => some .close
+  | "Err" => some .err
+  | _ =>
+    match s.toList with
+    | 'O' :: 'p' :: ':' :: r => (parseOp (String.ofList r)).map .op
+    | 'U' :: ':' :: r => (parseHex (String.ofList r)).map .unq
+    | 'Q' :: ':' :: r => (parseHex (String.ofList r)).map .quo
+    | _ => none
+
+def showTTok : TTok → String
+  | .arr e m => "A" ++ (if m then "m" else "") ++ toString e
+  | .obj e m => "O" ++ (if m then "m" else "") ++ toString e
+  | .mixedC => "M"
+  | .unq s => "U:" ++ toHex s
+  | .quo s => "Q:" ++ toHex s
+  | .param s => "P:" ++ toHex s
+  | .undef s => "N:" ++ toHex s
+  | .op o => "Op:" ++ opName o
+  | .end_ i => "E" ++ toString i
+  | .hdr s => "H:" ++ toHex s
+
+def showRTok : RTok → String
+  | .open_ => "Open" | .close => "Close" | .op o => "Op:" ++ opName o
+  | .unq s => "U:" ++ toHex s | .quo s => "Q:" ++ toHex s | .err => "Err"
+
+def joinOrDash (l : List String) : String := if l.isEmpty then "-" else ",".intercalate l
+
+def isHexCh (c : Char) : Bool := c.isDigit || ('a' ≤ c && c ≤ 'f') || c == '-'
+
+mutual
+/-- node := u<hex> | q<hex> | o[field;..] | a[node;..] | h<namehex>:node -/
+def parseNode : Nat → List Char → Option (Node × List Char)
+  | 0, _ => none
+  | f + 1, cs =>
+    match cs with
+    | 'u' :: r => (parseHex (String.ofList (r.takeWhile isHexCh))).map (fun b => (.leaf ⟨b, false⟩, r.dropWhile isHexCh))
+    | 'q' :: r => (parseHex (String.ofList (r.takeWhile isHexCh))).map (fun b => (.leaf ⟨b, true⟩, r.dropWhile isHexCh))
+    | 'o' :: '[' :: r => (parseFieldsD f r).map (fun (fs, r) => (.obj fs, r))
+    | 'a' :: '[' :: r => (parseNodes f r).map (fun (vs, r) => (.arr vs, r))
+    | 'h' :: r =>
+      (match r.dropWhile isHexCh with
+       | ':' :: r2 =>
+         (parseHex (String.ofList (r.takeWhile isHexCh))).bind (fun n =>
+           (parseNode f r2).map (fun (b, r3) => (.hdr n b, r3)))
+       | _ => none)
+    | _ => none
+def parseFieldsD : Nat → List Char → Option (List (Bytes × Op × Node) × List Char)
+  | 0, _ => none
+  | f + 1, cs =>
+    match cs with
+    | ']' :: r => some ([], r)
+    | _ =>
+      let key := cs.takeWhile isHexCh
+      match cs.dropWhile isHexCh with
+      | '~' :: r =>
+        let opn := r.takeWhile (· != '~')
+        (match r.dropWhile (· != '~') with
+         | '~' :: r2 =>
+           (parseHex (String.ofList key)).bind (fun k => (parseOp (String.ofList opn)).bind (fun o =>
+             (parseNode f r2).bind (fun (v, r3) =>
+               let r3 := match r3 with | ';' :: r' => r' | _ => r3
+               (parseFieldsD f r3).map (fun (fs, r4) => ((k, o, v) :: fs, r4)))))
+         | _ => none)
+      | _ => none
+def parseNodes : Nat → List Char → Option (List Node × List Char)
+  | 0, _ => none
+  | f + 1, cs =>
+    match cs with
+    | ']' :: r => some ([], r)
+    | _ =>
+      (parseNode f cs).bind (fun (v, r) =>
+        let r := match r with | ';' :: r' => r' | _ => r
+        (parseNodes f r).map (fun (vs, r2) => (v :: vs, r2)))
+end
+
+def parseDoc (s : String) : Option Doc :=
+  match s.toList with
+  | 'd' :: '[' :: r =>
+    (match parseFieldsD (s.length + 2) r with
+     | some (fs, []) => some fs
+     | _ => none)
+  | _ => none
+
 def handle : Handler
+  | "tde_tape" :: enc :: ty :: tape :: _ => do
+    let enc ← parseEnc enc
+    let ty ← parseTyStr ty
+    let toks ← (splitComma tape).mapM parseTTok
+    pure (renderR (deTape enc ty toks))
+  | "tde_stream" :: enc :: ty :: rtoks :: _ => do
+    let enc ← parseEnc enc
+    let ty ← parseTyStr ty
+    let toks ← (splitComma rtoks).mapM parseRTok
+    pure (renderR (deStream enc ty toks))
+  | ["spec_doc", enc, ty, doc, _] => do
+    let enc ← parseEnc enc
+    let ty ← parseTyStr ty
+    let d ← parseDoc doc
+    pure (renderR (valueOf enc ty d) ++ "|" ++ joinOrDash ((lexemes d).map showRTok) ++ "|" ++ joinOrDash ((tapeOf d).map showTTok))
   | _ => none
 
 end Jomini.Driver.C02
